@@ -40,6 +40,7 @@ import (
 // This only affects TCP connections, it does not swap the logical database currently
 // being used by the embedded API.
 func (server *SugarDB) SwapDBs(database1, database2 int) {
+	verifhook.Yield("ks.swapdbs")
 	// If the databases are the same, skip the swap.
 	if database1 == database2 {
 		return
@@ -80,6 +81,7 @@ func (server *SugarDB) SwapDBs(database1, database2 int) {
 // Flush flushes all the data from the database at the specified index.
 // When -1 is passed, all the logical databases are cleared.
 func (server *SugarDB) Flush(database int) {
+	verifhook.Yield("ks.flush")
 	server.storeLock.Lock()
 	defer server.storeLock.Unlock()
 
@@ -128,6 +130,7 @@ func (server *SugarDB) Flush(database int) {
 }
 
 func (server *SugarDB) keysExist(ctx context.Context, keys []string) map[string]bool {
+	verifhook.Yield("ks.keysExist")
 	// The write lock is needed because keys that turn out to be expired are removed.
 	server.storeLock.Lock()
 	defer server.storeLock.Unlock()
@@ -154,6 +157,7 @@ func (server *SugarDB) keysExist(ctx context.Context, keys []string) map[string]
 }
 
 func (server *SugarDB) getExpiry(ctx context.Context, key string) time.Time {
+	verifhook.Yield("ks.getExpiry")
 	server.storeLock.RLock()
 	defer server.storeLock.RUnlock()
 
@@ -168,6 +172,7 @@ func (server *SugarDB) getExpiry(ctx context.Context, key string) time.Time {
 }
 
 func (server *SugarDB) getValues(ctx context.Context, keys []string) map[string]interface{} {
+	verifhook.Yield("ks.getValues")
 	server.storeLock.Lock()
 	defer server.storeLock.Unlock()
 
@@ -230,6 +235,7 @@ func (server *SugarDB) expireKey(ctx context.Context, key string) {
 }
 
 func (server *SugarDB) setValues(ctx context.Context, entries map[string]interface{}) error {
+	verifhook.Yield("ks.setValues")
 	server.storeLock.Lock()
 	defer server.storeLock.Unlock()
 
@@ -283,6 +289,7 @@ func (server *SugarDB) setValues(ctx context.Context, entries map[string]interfa
 }
 
 func (server *SugarDB) setExpiry(ctx context.Context, key string, expireAt time.Time, touch bool) {
+	verifhook.Yield("ks.setExpiry")
 	server.storeLock.Lock()
 	defer server.storeLock.Unlock()
 
@@ -435,6 +442,7 @@ func (server *SugarDB) createDatabase(database int) {
 }
 
 func (server *SugarDB) getState() map[int]map[string]interface{} {
+	verifhook.Yield("ks.getState")
 	// No data command runs while the state is copied. (The lock is taken before the flags below are
 	// looked at: a write command waits for the copy flag while it holds this lock.)
 	server.commandLock.Lock()
@@ -788,6 +796,7 @@ func (server *SugarDB) evictKeysWithExpiredTTL(ctx context.Context) error {
 }
 
 func (server *SugarDB) randomKey(ctx context.Context) string {
+	verifhook.Yield("ks.randomKey")
 	server.storeLock.RLock()
 	defer server.storeLock.RUnlock()
 
